@@ -85,11 +85,21 @@ def run(ctx: Context) -> None:
     if len(parse_calls) != 1:
         raise AnalysisError(f"anchor vanished: URL parsing call in URL.__init__ ({len(parse_calls)} found)")
     parser = (chain(parse_calls[0].func) or [""])[-1]
+    # the local that holds the parse result (whatever it is called)
+    pa = parent(parse_calls[0])
+    pv = norm(pa.targets[0]) if isinstance(pa, ast.Assign) and len(pa.targets) == 1 and isinstance(pa.targets[0], ast.Name) else "parsed"
     # the value stored as the target, with local temporaries (`path = parsed.path or b"/"`) expanded
     cand = [n for n in own_nodes(uinit.node) if isinstance(n, ast.Assign) and norm(n.targets[0]) == "self.target"]
     expanded = {id(n): (ctx.prov.expand(n.value, uinit, n, pure=True) or [n.value]) for n in cand}
-    tstore = [n for n in cand if any("parsed" in norm(a) for a in expanded[id(n)])]
-    read = {a.attr for st in tstore for alt in expanded[id(st)] for a in ast.walk(alt) if isinstance(a, ast.Attribute) and norm(a.value) == "parsed"}
+    tstore = [n for n in cand if any(pv in norm(a) for a in expanded[id(n)])]
+    read = {a.attr for st in tstore for alt in expanded[id(st)] for a in ast.walk(alt) if isinstance(a, ast.Attribute) and norm(a.value) == pv}
+    # a target built up by conditional `+=` steps: the components are read by the steps as well
+    for st in tstore:
+        if isinstance(st.value, ast.Name):
+            for au in own_nodes(uinit.node):
+                if isinstance(au, ast.AugAssign) and norm(au.target) == norm(st.value):
+                    read |= {a.attr for a in ast.walk(au.value) if isinstance(a, ast.Attribute) and norm(a.value) == pv}
+                    read |= {a.attr for g_ in guards_of(au) for a in ast.walk(g_[0]) if isinstance(a, ast.Attribute) and norm(a.value) == pv}
     need = PARSER_COMPONENTS[parser]
     ok = bool(tstore) and need <= read and not (read & FORBIDDEN_COMPONENTS)
     rep.ob("C19.R4", "shared|URL.__init__|target-components", ok, where(uinit, tstore[0] if tstore else None),
@@ -97,14 +107,20 @@ def run(ctx: Context) -> None:
     if tstore:
         v = expanded[id(tstore[0])][0]
         rows = {}
+        from ..norm import run_to as _run_to
+
         for path, query in ((b"", b""), (b"/p", b""), (b"/p", b"q=1"), (b"", b"q")):
-            got = peval(v, {"parsed.path": path, "parsed.query": query, "parsed.params": b""})
+            env_ = {f"{pv}.path": path, f"{pv}.query": query, f"{pv}.params": b"", "url": b"u"}
+            if isinstance(tstore[0].value, ast.Name) and _run_to(uinit.node.body, tstore[0], env_) == "hit":
+                got = peval(tstore[0].value, env_)         # built up step by step: interpret the routine up to the store
+            else:
+                got = peval(v, env_)
             want = (path or b"/") + (b"?" + query if query else b"")
             if got is UNKNOWN or got != want:
                 rows[f"path={path!r},query={query!r}"] = f"{got!r} (want {want!r})"
         rep.ob("C19.R4", "shared|URL.__init__|target-shape", not rows, where(uinit, tstore[0]), "target = (path or '/') + ('?' + query if query)" if not rows else f"target deviates: {rows}")
-    hs = [n for n in own_nodes(uinit.node) if isinstance(n, ast.Assign) and norm(n.targets[0]) in ("self.scheme", "self.host", "self.port") and "parsed" in norm(n.value)]
-    got = {norm(n.targets[0]): norm(n.value) for n in hs}
+    hs = [n for n in own_nodes(uinit.node) if isinstance(n, ast.Assign) and norm(n.targets[0]) in ("self.scheme", "self.host", "self.port") and pv in norm(n.value)]
+    got = {norm(n.targets[0]): norm(n.value).replace(pv + ".", "parsed.") for n in hs}
     rep.ob("C19.R4", "shared|URL.__init__|authority-components", got == {"self.scheme": "parsed.scheme", "self.host": "parsed.hostnameorb''", "self.port": "parsed.port"}, where(uinit),
            f"scheme/host/port <- {got}")
     # ---- R5 host form
@@ -115,18 +131,27 @@ def run(ctx: Context) -> None:
 
     inc = ctx.prog.func("httpcore._models", "include_request_headers")
     rets = [r for r in own_nodes(inc.node) if isinstance(r, ast.Return) and r.value is not None]
-    if len(rets) != 1:
-        raise AnalysisError("anchor vanished: single return of include_request_headers")
+    if not rets:
+        raise AnalysisError("anchor vanished: return of include_request_headers")
+
+    def _reach(env0: dict) -> tuple[ast.Return | None, dict]:
+        """the return that the routine reaches for this input (several returns: the one whose path conditions hold)"""
+        for r_ in sorted(rets, key=lambda x: x.lineno):
+            e_ = {k_: (list(v_) if isinstance(v_, list) else v_) for k_, v_ in env0.items()}
+            if run_to(inc.node.body, r_, e_) == "hit":
+                return r_, e_
+        return None, env0
     rows = {}
     located = 0
-    for port in (None, 80, 8080, 443):
+    for port in (None, 0, 80, 8080, 443):
         for default in (80, 443, None):
             env: dict = {"headers": [(b"accept", b"*/*")], "content": None, "url.host": b"example.com", "url.port": port, "url.scheme": b"x",
                          "DEFAULT_PORTS.get(url.scheme)": default, "DEFAULT_PORTS.get(url.scheme,None)": default}
-            if run_to(inc.node.body, rets[0], env) != "hit":
+            ret_, env = _reach(env)
+            if ret_ is None:
                 rows[f"port={port},default={default}"] = "not interpretable"
                 continue
-            got = peval(rets[0].value, env)
+            got = peval(ret_.value, env)
             want_host = b"example.com" if (port is None or port == default) else b"example.com:%d" % port
             want = [(b"Host", want_host), (b"accept", b"*/*")]
             located += 1
@@ -134,13 +159,13 @@ def run(ctx: Context) -> None:
                 rows[f"port={port},default={default}"] = f"{got!r} (want {want!r})"
     rep.floor("C19.R6", "port test in include_request_headers", 1 if located else 0, 1)
     rep.ob("C19.R6", "shared|include_request_headers|host-port", not rows, where(inc),
-           "Host is host alone iff port is None or the scheme's default, else host:port (12 port/default combinations interpreted)" if not rows else f"Host port rule deviates: {rows}")
+           "Host is host alone iff port is None or the scheme's default, else host:port (15 port/default combinations interpreted, port 0 included)" if not rows else f"Host port rule deviates: {rows}")
     # a caller-supplied Host (any case) is kept and nothing is prepended
     rows2 = {}
     for given in (b"Host", b"host", b"HOST"):
         env = {"headers": [(given, b"mine")], "content": None, "url.host": b"example.com", "url.port": 8080, "url.scheme": b"x", "DEFAULT_PORTS.get(url.scheme)": 80}
-        r = run_to(inc.node.body, rets[0], env)
-        got = peval(rets[0].value, env) if r == "hit" else UNKNOWN
+        ret_, env = _reach(env)
+        got = peval(ret_.value, env) if ret_ is not None else UNKNOWN
         if got is UNKNOWN or list(got) != [(given, b"mine")]:
             rows2[given.decode()] = repr(got)
     rep.ob("C19.R6", "shared|include_request_headers|host-only-if-absent", not rows2, where(inc),
@@ -254,6 +279,8 @@ def _r5(ctx: Context) -> None:
                 elif isinstance(n, ast.Assign) and norm(n.value) == "url.host" and norm(n.targets[0]) == "header_value":
                     sinks.append((f, n, "host-header"))
     rep.floor("C19.R5", "authority-formatting sinks", len(sinks), 4)
+    # one obligation per (routine, host expression): how the format is spelt (one literal, two, a conditional expression) is irrelevant
+    grouped: dict[tuple[str, str, str], list[tuple[FuncInfo, ast.AST, bool, str]]] = {}
     for f, n, kind in sinks:
         host_args = [a for a in ast.walk(n) if isinstance(a, ast.Attribute) and a.attr == "host"]
         bracketed = False
@@ -264,8 +291,13 @@ def _r5(ctx: Context) -> None:
         if "b'['" in norm(n) or "[%b]" in src:
             bracketed = True
         tree = "async" if "._async" in f.module.name else ("sync" if "._sync" in f.module.name else "shared")
-        rep.ob("C19.R5", f"{tree}|{f.short}|{kind}:{norm(n)[:50]}", bracketed, where(f, n),
-               "authority is formatted with IPv6 bracketing" if bracketed else
+        hx = norm(host_args[0]) if host_args else "?"
+        grouped.setdefault((tree, f.short, hx), []).append((f, n, bracketed, src))
+    for (tree, short, hx), items in grouped.items():
+        bad = [it for it in items if not it[2]]
+        f, n, _, src = (bad or items)[0]
+        rep.ob("C19.R5", f"{tree}|{short}|unbracketed:{hx}", not bad, where(f, n),
+               "authority is formatted with IPv6 bracketing" if not bad else
                f"`{src[:70]}` formats an unbracketed host (URL parsing stores `.hostname`, which strips the brackets): for an IPv6 literal the result is e.g. `::1:8080`, not a valid authority")
 
 
